@@ -330,8 +330,11 @@ def finish(run: PropertyRun, mod):
         "wall_s": round(time.time() - run.t0, 2),
         "violations": n_viol,
     }
-    os.makedirs(os.path.join(VERIF, "evidence"), exist_ok=True)
-    with open(os.path.join(VERIF, "evidence", f"{pid}.json"), "w") as f:
+    # evidence describes /repo itself; runs against a scratch copy (self-test mutants, seeded changes: FORMAK_REPO set) write elsewhere
+    ev_dir = os.path.join(VERIF, "evidence") if os.path.realpath(REPO) == os.path.realpath("/repo") else os.path.join(VERIF, ".scratch", "evidence-other-tree")
+    ev["repo"] = REPO
+    os.makedirs(ev_dir, exist_ok=True)
+    with open(os.path.join(ev_dir, f"{pid}.json"), "w") as f:
         json.dump(ev, f, indent=1, default=str)
     log(f"[{pid}] obligations={n_obl} discharged={n_proved} refuted={sum(1 for r in rows if r['status']=='refuted')} undecided={sum(1 for r in rows if r['status']=='undecided')} unsupported_fns={len(unsupported)} violations={n_viol} known={len(printed)} wall={ev['wall_s']}s exit={exit_code}")
     return exit_code
